@@ -52,14 +52,15 @@ CHECKS = {
                       "and nothing the runtime allocated is left behind except a panicked thread's closure; a failed spawn leaves nothing."),
                 note=K_NOTE_KERNEL + " As C05. 'Thousands of threads in any mixture' is reduced to one thread from a clean state: threads "
                      "share no runtime state apart from the allocator; histories and heap baseline over many threads are outside."),
-    "C03": dict(engine="K", technique=K_TECH, design_ref="§4 C03",
-                text=("PARTIAL, stated: bounded model checking of (1) the allocator's size/index arithmetic at full 64-bit width and (2) single "
-                      "malloc / memalign / calloc calls with symbolic size and alignment on the fresh heap above an OS model that may refuse "
-                      "memory (null iff too large or refused; aligned; inside mapped memory; zeroed; allocator untouched on refusal); plus (3) "
-                      "bounded execution of listed concrete histories (disjointness, contents intact, realloc prefix, reuse) - NOT a "
-                      "quantifier over histories."),
-                note=K_NOTE_KERNEL + " The claim rests on (1) and (2); 'every history from any reachable heap state' is outside (two symbolic "
-                     "operations in a row do not finish: 15-20 min / 30-40 GB)."),
+    "C03": dict(engine="K", technique=K_TECH, design_ref="§4 C03, §10",
+                text=("PARTIAL, stated: bounded model checking of (1) the allocator's size/index arithmetic at full 64-bit width and (2) ONE "
+                      "malloc (any usize, the OS may refuse) / memalign (size 1..4096, alignment 32..8192) / calloc (dirty memory) and TWO "
+                      "mallocs in a row with symbolic sizes on the fresh heap above an OS model (null iff too large or refused; aligned; "
+                      "inside mapped memory; disjoint; zeroed; allocator untouched on refusal). Histories that contain a free or a "
+                      "realloc are NOT decided."),
+                note=K_NOTE_KERNEL + " The larger half of the property (every history, reuse, coalescing, contents intact across frees, "
+                     "realloc, heap usable after OOM) is outside: a concrete 5-operation script already exhausts 10 min / 14-19 GB "
+                     "(measured; DESIGN.md §10)."),
     "C07": dict(engine="K", technique=K_TECH, design_ref="§4 C07",
                 text=("Bounded model checking of the start-up walk (tiny_start::start::resolve + AuxValues::from_auxv) over symbolic kernel "
                       "stack images and of env::var/var_unix/args over symbolic environment blocks, against the definition 'first entry whose "
@@ -95,7 +96,7 @@ CHECKS = {
     "C20": dict(engine="K", technique=K_TECH, design_ref="§4 C20",
                 text=("Bounded model checking of the parsers generated by the derive macros for four struct shapes, differentially against "
                       "reference parsers written from the declared grammar, over argument vectors of arbitrary bytes; panics are failures."),
-                note=K_NOTE + " <= 3 arguments of <= 3 bytes (4 in thorough) plus one 140-byte argument through the real formatter."),
+                note=K_NOTE + " Quick: shape A <= 3 arguments of <= 3 bytes, shapes B and C <= 2 arguments, the error-cause buffer for every fill level / chunk length <= 300; thorough: 3-4 arguments for all four shapes plus one 140-byte argument through the real formatter."),
     "C08": dict(engine="K", technique=K_TECH, design_ref="§4 C08",
                 text=("Bounded model checking of tiny-start's memcpy/memmove/memset/memcmp/bcmp with symbolic length, both "
                       "misalignments, overlap distance, fill byte and all buffer bytes; the C definition is asserted at a symbolic index over "
